@@ -169,6 +169,10 @@ WS : [ \\t\\r\\n]+ -> skip ;
     ('labels', """grammar Lab;
 start: op=('add' | 'sub') arg=('x' 'y') EOF ;
 """, ['add x y', 'sub x y', 'add', 'x y', 'add x', 'sub y x']),
+    # a LABELLED negation: x=~'y' is "one character that is not y", bound to x
+    ('labelled-negation', """grammar LNeg;
+start: x=~'y' 'e' EOF ;
+""", ['q e', 'y e', 'qe', 'e']),
     # `~` over a parenthesised set of several-character alternatives (a lookahead over the whole group) and over a token reference
     ('negset', """grammar Neg;
 start: item (SEP item)* EOF ;
